@@ -31,8 +31,10 @@ def run(ctx):
     ctx.rule('C10.e-wrappers-forward', 'the ReedSolomon{En,De}coder methods the one-shot functions use (supports, new, add, encode/decode) only forward to the default-rate codec: the pre-check of the one-shot call is the predicate the constructor fails by (clause shared with C09.c)')
     ctx.rule('C10.f-iterator-is-the-accessor', 'the result iterators the one-shot functions collect from yield exactly what the accessors of the streaming result expose (clause shared with C12.b)')
     ctx.rule('C10.g-no-state-between-calls', 'nothing survives from one one-shot call to the next: no non-table static, thread-local or other hidden input is read anywhere below the API (clause shared with C05.f)')
-    from . import c09, c12, c05
+    ctx.rule('C10.h-same-validation', 'indexes and counts are validated before use on the streaming path the one-shot functions run through: an input the streaming API rejects cannot be accepted (or panic) in the one-shot call (clause shared with C06.a)')
+    from . import c09, c12, c05, c06
     f0 = ctx.facts(cfgs[0])
+    ctx.guard('C10.analysable', ctx.shared, {'C06.a-check-before-use': 'C10.h-same-validation'}, c06.check_taint, ctx, f0, cfgs[0])
     ctx.guard('C10.analysable', ctx.shared, {'C05.f-no-hidden-inputs': 'C10.g-no-state-between-calls'}, c05.hidden_inputs, ctx, f0, cfgs[0])
     ctx.guard('C10.analysable', ctx.shared, {'C09.c-delegation': 'C10.e-wrappers-forward'}, c09.check, ctx, f0, cfgs[0])
     ctx.guard('C10.analysable', ctx.shared, {'C12.b-iterators': 'C10.f-iterator-is-the-accessor'}, c12.iterators, ctx, f0, cfgs[0])
